@@ -8,7 +8,8 @@ Line protocol for the field-propagation model at `Float` (C++ side: harness/fiel
         format of the harness
   drvseq <13 options> (A <step> <pos3> <mom3> | S <18 doubles>)*
         replay of a sequence of `FieldDriver::advance` calls on one driver object over the
-        recorded stepper answers (S); prints `adv … st … => … -> …`
+        recorded stepper answers (S); prints `adv … st … => … -> …` (plus the diagnostic token
+        `xc` before `->` when the chord finder ran out of `max_nsteps`; stripped before comparing)
   zhm <bz> <coeffi> <step> <pos3> <mom3>      ZHelixStepper closed form (18 doubles)
   rhsm <bx> <by> <bz> <coeffi> <pos3> <mom3>  MagFieldEquation (6 doubles)
   opts <13 options>                            ok 1 | invalid 0
@@ -152,14 +153,29 @@ structure Tape where
   answers : List (StepperResult Float)
   log : String := ""
   underflow : Bool := false
+  lastH : Float := 0.0      -- step length of the most recent stepper call
 
 def showSR (r : StepperResult Float) : String := s!"{hode r.mid} {hode r.fin} {hode r.err}"
 
 def tapeStepper : Driver.Stepper Tape Float := fun t h y =>
   match t.answers with
   | r :: rest =>
-    (r, { t with answers := rest, log := t.log ++ s!" st {hx h} {hode y} => {showSR r}" })
-  | [] => (default, { t with underflow := true, log := t.log ++ s!" st {hx h} {hode y} => ?" })
+    let lg := t.log ++ s!" st {hx h} {hode y} => {showSR r}"
+    (r, { t with answers := rest, lastH := h, log := lg })
+  | [] =>
+    let lg := t.log ++ s!" st {hx h} {hode y} => ?"
+    (default, { t with underflow := true, lastH := h, log := lg })
+
+/-- diagnostic (not part of the compared trace): did `find_next_chord` leave its loop with
+    `max_nsteps` spent, i.e. is the step it reports not the step of its last trial? -/
+def chordExhausted (o : Options Float) (maxChord : Option Float) (step : Float) (y : OdeState Float)
+    (srs : List (StepperResult Float)) : Bool :=
+  if step <= o.minimumStep then false else
+  let trial := match maxChord with
+    | none => step
+    | some m => fmin step m
+  let (out, t) := Driver.findNextChord o tapeStepper trial y ⟨srs, "", false, 0.0⟩
+  out.fin.step != t.lastH
 
 def srOf : List Float → Option (StepperResult Float)
   | [a1, a2, a3, a4, a5, a6, b1, b2, b3, b4, b5, b6, c1, c2, c3, c4, c5, c6] =>
@@ -195,8 +211,10 @@ def replayDrv (ws : List String) : String :=
     | some calls =>
       let (out, _) := calls.foldl (fun (acc : String × Option Float) call =>
         let ((step, y), srs) := call
-        let (r, mc, t) := Driver.advance o tapeStepper acc.2 step y ⟨srs, "", false⟩
-        (acc.1 ++ s!" adv {hx step} {hode y}" ++ t.log ++ s!" -> {hx r.step} {hode r.state}"
+        let (r, mc, t) := Driver.advance o tapeStepper acc.2 step y ⟨srs, "", false, 0.0⟩
+        (acc.1 ++ s!" adv {hx step} {hode y}" ++ t.log
+          ++ (if chordExhausted o acc.2 step y srs then " xc" else "")
+          ++ s!" -> {hx r.step} {hode r.state}"
           ++ (if t.underflow then " underflow" else "")
           ++ (if !t.answers.isEmpty then s!" leftover {t.answers.length}" else ""), mc))
         ("", none)
